@@ -54,10 +54,11 @@ def run(c):
             raise vlib.NoVerdict("MC_Genesis mode %s was not refuted (model property vacuous)" % m)
         refuted[m] = viol[0]
     logf = os.path.join(c.wd, "genesis.ndjson")
-    every, tail = (6, 18) if quick else (3, 120)
-    out = vlib.run_vh(["pairs", "roundtrip", "--seed", str(c.seed), "--out", logf, "--behaviours", tfile, "--every", str(every), "--tail", str(tail)],
+    every, tail, nwl = (6, 18, 1) if quick else (3, 200, 3)
+    out = vlib.run_vh(["pairs", "roundtrip", "--seed", str(c.seed), "--out", logf, "--behaviours", tfile, "--every", str(every), "--tail", str(tail),
+                       "--workloads", str(nwl)],
                       timeout=1500 if quick else 3000)
-    tr = vlib.trace_check(c.wd, "Trace_Genesis", "Trace_Genesis.cfg", logf, workers=4, timeout=1500, heap="6g")
+    tr = vlib.trace_check(c.wd, "Trace_Genesis", "Trace_Genesis.cfg", logf, workers=4, timeout=2400, heap="6g")
     c.judge(tr, logf)
     nodes = vlib.read_log(logf)
     st = tr["stats"]
@@ -85,9 +86,9 @@ def run(c):
         representation_only_stores=rep_only, harness_summary=out.strip().splitlines()[-1],
         exhaustive=False,
         rule="every history of the bounded model (<= %d operations before the round trip, <= %d after) executed on 4 real components; "
-             "1 seeded workload (scripted pass through all DeFi modules + %d random blocks) exported and re-imported after every %d-th block, "
+             "%d seeded workload(s) (scripted pass through all DeFi modules + %d random blocks) exported and re-imported after every %d-th block, "
              "each point followed by 7 continuation scripts on forks of both chains; every part / continuation step is a TLC state"
-             % (pre, cont, tail, every)),
+             % (pre, cont, nwl, tail, every)),
         assumptions=["band-oracle state is IBC environment: the stubbed oracle verdict is re-established on the re-imported chain",
                      "history of closed positions (auction / locked-vault history, reserve-funding log) is recorded but not judged",
                      "gas is not compared in C20 continuations (representation-dependent); ok / code / response data are"])
